@@ -9,8 +9,8 @@ REQUIRED = ["DaeVerif.C06.Props." + n for n in (
     "http_host_found_partial", "http_host_sound", "sniff_tcp_http_one_read_partial",
     "quic_sni_sound", "reassembly_keeps_slices", "quic_flight_found", "quic_header_walk_roundtrip", "quic_datagram_found_partial",
     "udp_not_withheld_when_complete", "udp_flow_in_order",
-    "udp_family_per_connection_partial", "udp_family_nothing_held_behind_endpoint_partial",
-    "udp_family_release_is_total_partial",
+    "udp_family_per_connection", "udp_family_nothing_held_behind_endpoint",
+    "udp_family_release_is_total",
     "quic_early_answer_is_final", "quic_complete_means_complete", "quic_datagram_packets_loop",
 )]
 
@@ -254,7 +254,7 @@ def run(ctx):
               "fam.emitted": 120, "fam.connections>=2": 30, "fam.holding>=2": 5, "fam.with_dial_failures": 40,
               "fam.write_failure_injected": 20, "fam.same_dcid_two_scids": 5, "fam.domainless_endpoint_then_other_connection": 5,
               "fam.nosni_streak_under_dial_failures": 4, "fam.undecryptable_under_dial_failures": 4,
-              "fam.dial_fails_at_completion_then_retransmit": 4, "fam.directed_uncacheable_dcid": 3,
+              "fam.dial_fails_at_completion_then_retransmit": 4, "fam.directed_uncacheable_dcid": 3, "fam.conn.uncacheable_dcid": 8, "fam.write_failure_after_earlier_writes": 10,
               "hello.two_sni_exts": 20, "hello.empty_last_ext": 40, "replay.short_sni_ext": 4}
     low = {k: (allc.get(k, 0), f) for k, f in floors.items() if allc.get(k, 0) < f}
     ctx.cov["generator_floors"] = floors
